@@ -793,7 +793,9 @@ class BaseLoss(object):
             FF = ode_utils.vecToMatFF(solution_all[i,base_index_hess::], nS, nP)
             E = np.zeros(nS)
             # d2(cost) = sum dl*w*d2(yhat) + 2*w^2*s's with dl = diff_loss
-            E[self._stateIndex] += diff_loss[i]*self._weight[i]
+            # np.add.at: a state observed more than once (replicate series)
+            # has to accumulate every one of its columns
+            np.add.at(E, self._stateIndex, diff_loss[i]*self._weight[i])
             H += scipy.sparse.kron(E, scipy.sparse.eye(nP)).dot(FF)
 
         # just the J^{\top}J part of the Hessian (which is guarantee to be PSD)
